@@ -155,10 +155,10 @@ def _worker(job):
                          key=lambda v: v.args[0])
         theta = prob._random_env(rnd, allvars)
         libvals = {}
-        lmemo = {}
+        lmemo, vmemo = {}, {}
         for name, dag in G.libs.items():
             try:
-                libvals[name] = S.evalf(dag, theta, lmemo)
+                libvals[name] = S.evalf_mag(dag, theta, lmemo, vmemo)  # (value, magnitude of the summed terms)
             except Exception:  # noqa: BLE001
                 pass
         for r in results:
@@ -385,12 +385,12 @@ def run_check(pid, tier, jobs, meta, seed=0, procs=None, job_timeout=None, extra
         if what == "selftest":
             bad = []
             cnt = 0
-            for gname, lv in o["libvals"].items():
+            for gname, (lv, mag) in o["libvals"].items():
                 e = ev.get(gname)
                 if e is None or "lib" not in e:
                     continue
                 cnt += 1
-                if not abs(e["lib"] - lv) <= 1e-8 * (abs(e["lib"]) + abs(lv)) + 1e-10:
+                if not abs(e["lib"] - lv) <= 1e-8 * (abs(e["lib"]) + abs(lv) + mag) + 1e-10:
                     bad.append((gname, lv, e["lib"]))
             st_points += cnt
             if bad:
